@@ -347,6 +347,8 @@ class PeriodicMessageTask:
         new_data = bytearray(data)
         old_data = self.msg.data
         self.msg.data = new_data
+        # python-can keeps the length given at construction otherwise
+        self.msg.dlc = len(new_data)
         if hasattr(self._task, "modify_data"):
             self._task.modify_data(self.msg)
         elif new_data != old_data:
